@@ -17,7 +17,7 @@ func AddInt32(addr *int32, delta int32) (new int32) {
 }
 func LoadInt32(addr *int32) (val int32) {
 	simrt.Point("atomic.load", false)
-	simrt.SyncAddr(unsafe.Pointer(addr))
+	simrt.AcquireAddr(unsafe.Pointer(addr))
 	return *addr
 }
 func StoreInt32(addr *int32, val int32) {
@@ -58,7 +58,7 @@ func AddInt64(addr *int64, delta int64) (new int64) {
 }
 func LoadInt64(addr *int64) (val int64) {
 	simrt.Point("atomic.load", false)
-	simrt.SyncAddr(unsafe.Pointer(addr))
+	simrt.AcquireAddr(unsafe.Pointer(addr))
 	return *addr
 }
 func StoreInt64(addr *int64, val int64) {
@@ -99,7 +99,7 @@ func AddUint32(addr *uint32, delta uint32) (new uint32) {
 }
 func LoadUint32(addr *uint32) (val uint32) {
 	simrt.Point("atomic.load", false)
-	simrt.SyncAddr(unsafe.Pointer(addr))
+	simrt.AcquireAddr(unsafe.Pointer(addr))
 	return *addr
 }
 func StoreUint32(addr *uint32, val uint32) {
@@ -140,7 +140,7 @@ func AddUint64(addr *uint64, delta uint64) (new uint64) {
 }
 func LoadUint64(addr *uint64) (val uint64) {
 	simrt.Point("atomic.load", false)
-	simrt.SyncAddr(unsafe.Pointer(addr))
+	simrt.AcquireAddr(unsafe.Pointer(addr))
 	return *addr
 }
 func StoreUint64(addr *uint64, val uint64) {
@@ -181,7 +181,7 @@ func AddUintptr(addr *uintptr, delta uintptr) (new uintptr) {
 }
 func LoadUintptr(addr *uintptr) (val uintptr) {
 	simrt.Point("atomic.load", false)
-	simrt.SyncAddr(unsafe.Pointer(addr))
+	simrt.AcquireAddr(unsafe.Pointer(addr))
 	return *addr
 }
 func StoreUintptr(addr *uintptr, val uintptr) {
@@ -301,7 +301,7 @@ func (x *Uintptr) Or(mask uintptr) uintptr  { return OrUintptr(&x.v, mask) }
 
 func LoadPointer(addr *unsafe.Pointer) (val unsafe.Pointer) {
 	simrt.Point("atomic.load", false)
-	simrt.SyncAddr(unsafe.Pointer(addr))
+	simrt.AcquireAddr(unsafe.Pointer(addr))
 	return *addr
 }
 func StorePointer(addr *unsafe.Pointer, val unsafe.Pointer) {
@@ -330,7 +330,7 @@ type Bool struct{ v bool }
 
 func (x *Bool) Load() bool {
 	simrt.Point("atomic.load", false)
-	simrt.SyncAddr(unsafe.Pointer(x))
+	simrt.AcquireAddr(unsafe.Pointer(x))
 	return x.v
 }
 func (x *Bool) Store(val bool) {
@@ -359,7 +359,7 @@ type Pointer[T any] struct{ v *T }
 
 func (x *Pointer[T]) Load() *T {
 	simrt.Point("atomic.load", false)
-	simrt.SyncAddr(unsafe.Pointer(x))
+	simrt.AcquireAddr(unsafe.Pointer(x))
 	return x.v
 }
 func (x *Pointer[T]) Store(val *T) {
@@ -388,7 +388,7 @@ type Value struct{ v any }
 
 func (x *Value) Load() any {
 	simrt.Point("atomic.load", false)
-	simrt.SyncAddr(unsafe.Pointer(x))
+	simrt.AcquireAddr(unsafe.Pointer(x))
 	return x.v
 }
 func (x *Value) Store(val any) {
